@@ -289,6 +289,13 @@ def judge_result_object(run, case, res, what):
             ok &= run.check(off in (0, 1) and "timestamps" in A and core.bits_equal(np.asarray(A["timestamps"], dtype=float), v["t"][off:]),
                             "returned timestamps are those of the stored estimate", case,
                             "%s: timestamps array does not match the stored estimate" % what, key="session:timestamps")
+            if off in (0, 1) and "seconds_from_start" in A and len(v["t"]):
+                sfs = np.asarray(A["seconds_from_start"], dtype=float)
+                want_s = v["t"][off:] - v["t"][0]
+                ok &= run.check(sfs.shape == want_s.shape and bool(np.all(np.abs(sfs - want_s) <= 4 * np.spacing(np.abs(v["t"][off:])))),
+                                "seconds_from_start = stamp of the value's pose - stamp of the first pose", case,
+                                "%s: seconds_from_start is not measured from the first pose of the stored estimate" % what,
+                                key="session:seconds")
     names = list(res.trajectories)
     if len(names) == 2 and "distances" in A and "distances_from_start" in A:
         vr, ve = gen.read_views(res.trajectories[names[0]]), gen.read_views(res.trajectories[names[1]])
@@ -327,6 +334,10 @@ def k_session(run, case):
     for k in range(1, n):
         if ref["t"][k] <= ref["t"][k - 1]:
             ref["t"][k] = ref["t"][k - 1] + 1e-3
+    if n >= 4 and rng.random() < .15:
+        # a late / out-of-order message: the first pose does not carry the smallest stamp
+        k = int(rng.integers(1, n))
+        ref["t"][0], ref["t"][k] = ref["t"][k], ref["t"][0]
     est = gen.perturbed_estimate(rng, ref, hostile=False)
     stamped = bool(rng.random() < .7)
     t_ref = gen.make_evo(ref, "se3" if rng.random() < .6 else "xyzq", stamped, flavour=gen.rand_flavour(rng))
